@@ -352,12 +352,25 @@ def build_T1b(tree):
             raise Unsupported(f'{fname}: decode_frame call shape changed')
         dindex = [k.value for k in dec.keywords if k.arg == 'index'][0]
         cached = one(lambda n: isinstance(n, ast.If) and ast.unparse(n.test) == 'self.number_of_frames == 1', 'test number_of_frames == 1')
-        if not (len(cached.body) == 1 and ast.unparse(cached.body[0]) == 'frame = self.pixel_array' and len(cached.orelse) == 1
-                and isinstance(cached.orelse[0], ast.Assign) and isinstance(cached.orelse[0].value, ast.Subscript)
-                and ast.unparse(cached.orelse[0].value.value) == 'self.pixel_array'
-                and ast.unparse(cached.orelse[0].targets[0]) == 'frame'):
+
+        def uncopy(v):
+            # `<expr>.copy()` -> (<expr>, True): the cached frame may be handed out as a copy (fix d078db8)
+            if isinstance(v, ast.Call) and isinstance(v.func, ast.Attribute) and v.func.attr == 'copy' and not v.args and not v.keywords:
+                return v.func.value, True
+            return v, False
+        if not (len(cached.body) == 1 and isinstance(cached.body[0], ast.Assign) and ast.unparse(cached.body[0].targets[0]) == 'frame'
+                and len(cached.orelse) == 1 and isinstance(cached.orelse[0], ast.Assign) and ast.unparse(cached.orelse[0].targets[0]) == 'frame'):
             raise Unsupported(f'{fname}: cached pixel-array branch changed shape')
-        csub = cached.orelse[0].value.slice
+        whole_v, copy1 = uncopy(cached.body[0].value)
+        elem_v, copy2 = uncopy(cached.orelse[0].value)
+        if not (ast.unparse(whole_v) == 'self.pixel_array' and isinstance(elem_v, ast.Subscript)
+                and ast.unparse(elem_v.value) == 'self.pixel_array') or copy1 != copy2:
+            raise Unsupported(f'{fname}: cached pixel-array branch changed shape')
+        csub = elem_v.slice
+        stacks = ast.unparse(fn.body[-1]) == 'return np.stack(output_frames)'
+        texts.append(f'/-- `{fname}`: the frame taken from the cached array is handed out as a copy (`.copy()` in both arms of the cached '
+                     f'branch, or the frames are stacked into a new array by `np.stack`) -/\ndef {prefix}CachedIsCopy : Bool := '
+                     + ('true' if (copy1 or stacks) else 'false'))
         outer = one(lambda n: isinstance(n, ast.If) and ast.unparse(n.test) == 'self._pixel_array is None' and cached in ast.walk(n),
                     'test self._pixel_array is None')
         if cached not in outer.orelse:
